@@ -44,6 +44,11 @@ def cases(tier, rng):
                 api = rng.choice(["kernel", "kernel", "vec", "snap"])
                 yield {"k": 1101, "args": [ds, [hm], mask, [has], [sml], [start], [0], [unit], [], []],
                        "call": {"api": api, "ml": ml}, "group": f"exh-n{n}-{'loopfree' if loopfree else 'cyclic'}-{api}"}
+    for t in range(60 if tier == "quick" else 600):
+        nr, nc = rng.randint(2, 6), rng.randint(1, 5)
+        flw = nets.random_d8_raster(rng, nr, nc, p_nodata=rng.choice([0, 0.1]))
+        if nets.pits(nets.d8_decode(flw, nr, nc)):
+            yield {"k": 1100, "args": [[t]], "call": {"api": "geo", "nr": nr, "nc": nc, "flw": flw, "seed": rng.randrange(10**9), "ml": None}, "group": "geographic-m"}
     nras = 600 if tier == "quick" else 4000
     for t in range(nras):
         nr, nc = rng.randint(1, 5), rng.randint(2, 5)
@@ -71,8 +76,46 @@ def cases(tier, rng):
                "group": f"raster-{direction}-{'m' if unit_m else 'cell'}"}
 
 
+def _geo(call):
+    """geographic grids: reported length = sum of the per-step centre-to-centre distances, path stops
+    before the step that would exceed max_length; compared with gis_utils.distance step by step"""
+    import random
+    import pyflwdir
+    from affine import Affine
+    from pyflwdir import gis_utils as g
+    rng = random.Random(call["seed"])
+    nr, nc = call["nr"], call["nc"]
+    ds = nets.d8_decode(call["flw"], nr, nc)
+    yres = rng.choice([-1.0, -0.5, 0.25, 1.0])
+    north = rng.uniform(-60, 60)
+    tr = Affine(rng.choice([1.0, 0.5]), 0.0, rng.uniform(-100, 100), 0.0, yres, north)
+    flw = pyflwdir.from_array(np.array(call["flw"], dtype=np.uint8).reshape(nr, nc), ftype="d8", transform=tr, latlon=True)
+    bad = []
+    valid = [i for i in range(nr * nc) if ds[i] >= 0]
+    for start in rng.sample(valid, min(4, len(valid))):
+        for ml in (None, rng.uniform(5e4, 4e5)):
+            paths, dists = flw.path(idxs=np.array([start]), max_length=ml, unit="m")
+            p = [int(x) for x in paths[0]]
+            exp, d, cur = [start], 0.0, start
+            while ds[cur] != cur:
+                step = g.distance(cur, ds[cur], nc, True, tr)
+                if ml is not None and d + step > ml:
+                    break
+                d += step
+                cur = ds[cur]
+                exp.append(cur)
+            if p != exp or float(dists[0]) != d:
+                bad.append(f"geographic path from {start} max_length={ml}: {p} {float(dists[0])} expected {exp} {d}")
+            s_idx, s_d = flw.snap(idxs=np.array([start]), max_length=ml, unit="m")
+            if int(s_idx[0]) != exp[-1] or abs(float(s_d[0]) - d) > 1e-6 * max(1.0, d):
+                bad.append(f"geographic snap from {start}: {int(s_idx[0])} {float(s_d[0])} expected {exp[-1]} {d}")
+    return [[0]] if not bad else [[1], bad[:3]]
+
+
 def impl(case):
     from common import call_impl
+    if case["k"] == 1100:
+        return _geo(case["call"])
     from implutil import ds_array, make_vector, idx_list
     from pyflwdir import core
     import pyflwdir
@@ -127,6 +170,8 @@ def impl(case):
 
 
 def _expected(case):
+    if case["k"] == 1100:
+        return [[0]]
     a = case["args"]
     call = case["call"]
     ds = a[0]
@@ -171,6 +216,8 @@ def compare(case, i, m):
 
 
 def oracle(case, out):
+    if case["k"] == 1100:
+        return None if out == [[0]] else ("trace:geographic-length", f"{out[1]}")
     if out and out[0] in ([-2], [-3]):
         return ("trace:unexpected-outcome", f"{out}")
     exp = _expected(case)
@@ -180,4 +227,6 @@ def oracle(case, out):
 
 
 def nontrivial(case, out):
+    if case["k"] == 1100:
+        return True
     return len(out) > 1 and (len(out[1]) > 1 or case["call"]["api"].endswith("snap"))
